@@ -132,6 +132,7 @@ type Backend struct {
 	MailErrs         []error
 	RcptErrs         []error
 	NewSessionGate   string     // gate NewSession waits at before it returns its session
+	LogoutGate       string     // gate Logout waits at before it returns (a slow Logout)
 	NewSessionReject bool       // NewSession calls Conn.Reject and returns a session nevertheless
 	PanicIn          string     // "Mail", "Rcpt", "NewSession": the next such call panics (one shot)
 	DataPlans        []DataPlan // consumed in order by Data begin; default plan when empty
@@ -462,7 +463,9 @@ func (s *sess) Logout() error {
 		s.b.mu.Unlock()
 		panic("scripted panic in Logout")
 	}
+	lg := s.b.LogoutGate
 	s.b.mu.Unlock()
+	s.b.gate(lg)
 	return nil
 }
 
